@@ -12,6 +12,7 @@ mod wire;
 mod bv;
 mod rt;
 mod mux;
+mod srv;
 
 fn main() {
     let args: Vec<String> = std::env::args().collect();
@@ -38,6 +39,7 @@ fn main() {
         "rt-vectors" => rt::vectors(&a),
         "rt-random" => rt::random(&a),
         "mux" => mux::run(&a),
+        "srv-c03" => srv::c03(&a),
         other => {
             eprintln!("unknown engine {other}");
             2
